@@ -17,6 +17,7 @@ import (
 	"sort"
 	"strings"
 	"sync"
+	"sync/atomic"
 	"testing/synctest"
 
 	"github.com/gin-gonic/gin"
@@ -88,6 +89,7 @@ type Sidecar struct {
 	inFirst chan struct{} // closed when the held first reload has arrived
 	gate    chan struct{} // closed to let it go on
 	held    bool
+	inCall  atomic.Int32 // >0 while the harness itself is inside an API call of this sidecar (its reloads are not "the start path's")
 	nListen int
 	stopped bool
 }
@@ -130,7 +132,7 @@ func (r *Router) RoundTrip(req *http.Request) (*http.Response, error) {
 func (s *Sidecar) prometheus(w http.ResponseWriter, req *http.Request) {
 	switch {
 	case req.Method == "POST" && req.URL.Path == "/-/reload":
-		if s.Opt.HoldFirstReload && !s.held {
+		if s.Opt.HoldFirstReload && !s.held && s.inCall.Load() == 0 {
 			s.held = true
 			close(s.inFirst)
 			<-s.gate
@@ -407,6 +409,8 @@ func (s *Sidecar) do(method, path string, body interface{}) *httptest.ResponseRe
 		req.Header.Set("Content-Type", "application/json")
 	}
 	rr := httptest.NewRecorder()
+	s.inCall.Add(1)
+	defer s.inCall.Add(-1)
 	s.Service.ServeHTTP(rr, req)
 	return rr
 }
